@@ -202,11 +202,17 @@ def _worker_init(mir_files, crate_dirs, check_module):
         ctypes.CDLL('libc.so.6').prctl(1, signal.SIGKILL)      # PR_SET_PDEATHSIG: die with the driver
     except Exception:
         pass
-    prog = Program(loader.REPO)
-    for f, d in zip(mir_files, crate_dirs):
-        prog.add_mir(open(f).read(), d)
-    _W['prog'] = prog
-    _W['check'] = __import__(check_module, fromlist=['x'])
+    _W.pop('init_error', None)
+    try:
+        prog = Program(loader.REPO)
+        for f, d in zip(mir_files, crate_dirs):
+            prog.add_mir(open(f).read(), d)
+        _W['prog'] = prog
+        _W['check'] = __import__(check_module, fromlist=['x'])
+    except Exception as e:      # noqa
+        # an exception in a pool initializer makes multiprocessing respawn workers for ever: record it instead and
+        # let every job report "inconclusive"
+        _W['init_error'] = 'MIR of the current tree could not be loaded: %s: %s' % (type(e).__name__, str(e)[:300])
     z3.set_param('smt.random_seed', SEED)
 
 
@@ -215,6 +221,8 @@ def _worker_run(job):
     log = os.environ.get('VERIF_JOBLOG')
     if log:
         open(log, 'a').write('START %s\n' % ({k: v for k, v in job.items() if not str(k).startswith('files')},))
+    if _W.get('init_error'):
+        return {'job': {k: v for k, v in job.items() if not str(k).startswith('files')}, 'inconclusive': 'encoder incomplete: ' + _W['init_error']}
     try:
         cs = cross_snapshot()
         res = _W['check'].run_job(_W['prog'], job)
